@@ -52,6 +52,11 @@ def build_series(cfg):
         cfg["_last_reg"] = last
         if cfg.get("constant_sensor") is not None and cfg["constant_sensor"] < N:
             x[:, cfg["constant_sensor"]] = 1.25
+        for j in range(int(cfg.get("outliers") or 0)):
+            # isolated rows far from everything else: they tend to end up alone in a cluster (one-member clusters,
+            # repopulation in the following round)
+            pos_o = int(rng.integers(0, T))
+            x[pos_o] = means[0] + (12.0 + 6.0 * j) * (1 if j % 2 == 0 else -1)
         if cfg.get("duplicate_rows"):
             k = max(1, T // 3)
             x[T - k:] = x[:k]
